@@ -229,8 +229,8 @@ theorem riverObs_relabel (cfg : RP.Eval.Cfg) (π : List Nat) (hπ : π ∈ RP.Ge
 /-- number of cards of the deck not among the seven seen ones -/
 def unseen (short : Bool) : Nat := if short then 29 else 45
 
-theorem nFree_river {short : Bool} {kb p b : Nat} (hp : RP.C06.IsHand short 2 0 p) (hb : RP.C06.IsHand short kb p b) :
-    RP.C06.nFree short (p ||| b) + (2 + kb) = if short then 36 else 52 := by
+theorem nFree_river {short : Bool} {kb p b : Nat} (hp : RP.C06.IsHand short 2 0 p) (hb : RP.C06.IsHand short kb p b)
+    (hk : kb ≤ 5) : RP.C06.nFree short (p ||| b) + (2 + kb) = if short then 36 else 52 := by
   have fp := isHand_facts hp
   have fb := isHand_facts hb
   have hp' := (RP.C06.isHand_iff _ _ _ _).mp hp
@@ -245,11 +245,11 @@ theorem nFree_river {short : Bool} {kb p b : Nat} (hp : RP.C06.IsHand short 2 0 
   unfold RP.C06.nFree
   rw [hblk, RP.C06.popW_or_disjoint _ _ _ (by rw [Nat.and_or_distrib_right, hS, hbS]; rfl),
     RP.C06.popW_or_disjoint _ _ _ hdisj, fp.2, fb.2, RP.C06.blocked_zero]
+  have e16 : popW 52 65535 = 16 := by decide
+  have e0 : popW 52 0 = 0 := popW_zero 52
   cases short
-  · simp only [Bool.false_eq_true, if_false]; rw [popW_zero]; omega
-  · simp only [if_true]
-    have : popW 52 65535 = 16 := by decide
-    rw [this]
+  · simp only [Bool.false_eq_true, if_false]; rw [e0]; omega
+  · simp only [if_true]; rw [e16]; omega
 
 /-- **the fold ranges over exactly the 2-subsets of the unseen cards**: the villain holdings of a
     river observation are, in increasing order and each exactly once, the two-card hands of the
@@ -271,10 +271,13 @@ theorem C07_river_holdings (short : Bool) (p b : Nat) (ho : RiverObs short p b) 
       exact (RP.C06.mem_ksubsets _ _ _ _).mpr ⟨h3, by rw [← RP.C06.popW_eq_of_lt h3 (by omega : 52 ≤ 64)]; exact h1, h2⟩
   · rw [hc]; exact RP.C06.ksubsets_sorted _ _ _
   · rw [RP.C06.C06_hands_count short 2 _ (by decide) (by decide)]
-    have := nFree_river ho.1 ho.2
-    congr 1
-    unfold unseen
-    cases short <;> simp at this ⊢ <;> omega
+    have := nFree_river ho.1 ho.2 (by decide)
+    have e : RP.C06.nFree short (p ||| b) = unseen short := by
+      unfold unseen
+      cases short
+      · simp only [Bool.false_eq_true, if_false] at this ⊢; omega
+      · simp only [if_true] at this ⊢; omega
+    rw [e]
 
 theorem choose_unseen : Nat.choose (unseen false) 2 = 990 ∧ Nat.choose (unseen true) 2 = 406 := by decide
 
@@ -288,10 +291,94 @@ theorem C07_river_total_le (cfg : RP.Eval.Cfg) (p b : Nat) (ho : RiverObs (short
   rw [List.length_map, (C07_river_holdings _ p b ho).2.2.2] at this
   exact this
 
+/-! ## (3) the turn histogram is invariant -/
+
+/-- a turn observation extended by an unseen card is a river observation -/
+theorem riverObs_of_child {short : Bool} {p b t : Nat} (ho : TurnObs short p b)
+    (ht : t ∈ ksubsets 52 1 (RP.C06.blocked short (p ||| b))) : RiverObs short p (b ||| t) := by
+  have hT := isHand_of_mem ht
+  have hz := RP.C06.and_or_zero hT.2.1
+  have hd : b &&& t = 0 := by rw [Nat.and_comm]; exact hz.2
+  refine ⟨ho.1, ?_, ?_, ?_⟩
+  · rw [RP.C06.popW_or_disjoint 64 b t hd, ho.2.1, hT.1]
+  · rw [Nat.and_or_distrib_right, ho.2.2.1, hz.1]; rfl
+  · rw [Nat.and_or_distrib_right, ho.2.2.2, hT.2.2]
+
+/-- **C07_turn_histogram_invariant**: the histogram of the river buckets of the children of a turn
+    observation (`Observation::children` + equity bucket of each child, the function behind the
+    driver's `hist` operation) is the same for the relabeled observation -/
+theorem C07_turn_histogram_invariant (cfg : RP.Eval.Cfg) (π : List Nat) (hπ : π ∈ RP.Gen.permExhaust)
+    (p b : Nat) (ho : TurnObs (shortOf cfg) p b) :
+    turnHistogram cfg (shortOf cfg) (RP.C01.relabel π p) (RP.C01.relabel π b) =
+      turnHistogram cfg (shortOf cfg) p b := by
+  have hp' : RP.C06.IsHand (shortOf cfg) 2 0 (RP.C01.relabel π p) := by
+    have := isHand_relabel cfg π hπ 2 0 p ho.1
+    rw [RP.C01.relabel_zero] at this
+    exact this
+  have hb' := isHand_relabel cfg π hπ 4 p b ho.2
+  have hc := (RP.C06.C06_children (shortOf cfg) 2 p b (by decide) ho.1 ho.2).1
+  have hc' := (RP.C06.C06_children (shortOf cfg) 2 _ _ (by decide) hp' hb').1
+  have e1 : RP.Hands.nRevealed 2 = 1 := by decide
+  rw [e1] at hc hc'
+  rw [← RP.C01.relabel_or π hπ] at hc'
+  have hperm := ksubsets_relabel cfg π hπ 1 (p ||| b) (seen_inDeck ho.1 ho.2)
+  simp only [turnHistogram, hc, hc', Option.map_some, List.map_map]
+  apply congrArg some
+  apply C07_histogram_perm
+  generalize hK : ksubsets 52 1 (RP.C06.blocked (shortOf cfg) (p ||| b)) = K at hperm
+  generalize ksubsets 52 1 (RP.C06.blocked (shortOf cfg) (RP.C01.relabel π (p ||| b))) = K' at hperm
+  have h1 := hperm.map ((fun o : Nat × Nat => riverBucket cfg (shortOf cfg) o.1 o.2) ∘
+    fun r => (RP.C01.relabel π p, RP.C01.relabel π b ||| r))
+  refine h1.trans ?_
+  rw [List.map_map]
+  apply List.Perm.of_eq
+  apply List.map_congr_left
+  intro t ht
+  rw [← hK] at ht
+  simp only [Function.comp]
+  rw [← RP.C01.relabel_or π hπ]
+  exact C07_river_bucket_invariant cfg π hπ p (b ||| t) (riverObs_of_child ho ht)
+
 theorem C07_river_total_le_std (p b : Nat) (ho : RiverObs false p b) :
     (riverCounts .std false p b).2 ≤ 990 := by
-  have := (C07_river_total_le .std p b ho).2
-  rw [choose_unseen.1] at this
-  exact this
+  have h := (C07_river_total_le .std p b ho).2
+  have e : Nat.choose (unseen (shortOf .std)) 2 = 990 := choose_unseen.1
+  rw [e] at h
+  exact h
+
+/-! ## non-vacuity: 2d5s on 4d6d7hKdAd (the observation whose equity the repaired flush tie
+changed from 1.0 to 0.67: `riverCounts = (666, 990)` under `#eval`) and its image under d ↔ h -/
+
+def exPocket : Nat := 2^1 + 2^15
+def exBoard : Nat := 2^9 + 2^17 + 2^22 + 2^45 + 2^49
+def exTurn : Nat := 2^9 + 2^17 + 2^22 + 2^45
+def swapDH : List Nat := [0, 2, 1, 3]
+
+example : swapDH ∈ RP.Gen.permExhaust := by decide
+example : RiverObs false exPocket exBoard := by unfold RiverObs RP.C06.IsHand; decide
+example : TurnObs false exPocket exTurn := by unfold TurnObs RP.C06.IsHand; decide
+-- the image is 2h5s on 4h6h7dKhAh
+example : RP.C01.relabel swapDH exPocket = 2^2 + 2^15 ∧
+    RP.C01.relabel swapDH exBoard = 2^10 + 2^18 + 2^21 + 2^46 + 2^50 := by decide
+example : riverCounts .std false (2^2 + 2^15) (2^10 + 2^18 + 2^21 + 2^46 + 2^50) =
+    riverCounts .std false exPocket exBoard :=
+  C07_river_counts_invariant .std swapDH (by decide) exPocket exBoard (by unfold RiverObs RP.C06.IsHand; decide)
+example : riverBucket .std false (2^2 + 2^15) (2^10 + 2^18 + 2^21 + 2^46 + 2^50) =
+    riverBucket .std false exPocket exBoard :=
+  C07_river_bucket_invariant .std swapDH (by decide) exPocket exBoard (by unfold RiverObs RP.C06.IsHand; decide)
+example : turnHistogram .std false (2^2 + 2^15) (2^10 + 2^18 + 2^21 + 2^46) =
+    turnHistogram .std false exPocket exTurn :=
+  C07_turn_histogram_invariant .std swapDH (by decide) exPocket exTurn (by unfold TurnObs RP.C06.IsHand; decide)
+example : (riverCounts .std false exPocket exBoard).2 ≤ 990 :=
+  C07_river_total_le_std exPocket exBoard (by unfold RiverObs RP.C06.IsHand; decide)
+-- short deck: 6d9s on 7d8hKdAd (+ Td on the river), same swap
+example : RiverObs true (2^17 + 2^31) (2^21 + 2^26 + 2^33 + 2^45 + 2^49) ∧ TurnObs true (2^17 + 2^31) (2^21 + 2^26 + 2^45 + 2^49) := by
+  unfold RiverObs TurnObs RP.C06.IsHand; decide
+example : riverCounts .short true (RP.C01.relabel swapDH (2^17 + 2^31)) (RP.C01.relabel swapDH (2^21 + 2^26 + 2^33 + 2^45 + 2^49)) =
+    riverCounts .short true (2^17 + 2^31) (2^21 + 2^26 + 2^33 + 2^45 + 2^49) :=
+  C07_river_counts_invariant .short swapDH (by decide) _ _ (by unfold RiverObs RP.C06.IsHand; decide)
+-- a five-card board is not a turn observation, overlapping cards are no observation at all
+example : ¬ TurnObs false exPocket exBoard := by unfold TurnObs RP.C06.IsHand; decide
+example : ¬ RiverObs false exPocket (exBoard - 2^9 + 2^1) := by unfold RiverObs RP.C06.IsHand; decide
 
 end RP.C07
